@@ -54,6 +54,10 @@ func (ft *ftrans) exprU(e *env, x ast.Expr) string {
 	if lit, ok := p.litU64(x); ok {
 		return lit
 	}
+	if _, isConst, inRange := constVal(x); isConst && !inRange {
+		// Go computes constant expressions exactly; the word operations emitted below would wrap
+		p.failAt(x, "%s: constant expression with an intermediate value outside 0 .. 2^64-1 (Go evaluates it exactly)", ft.sum.key)
+	}
 	switch x := x.(type) {
 	case *ast.Ident:
 		v := e.lookup(x.Name)
